@@ -7,6 +7,7 @@ import (
 	"go/types"
 	"golang.org/x/tools/go/ssa"
 	"math/bits"
+	"strconv"
 	"strings"
 
 	"golang.org/x/tools/go/packages"
@@ -34,6 +35,8 @@ func checkC07(c *Ctx, r *Report) {
 	checkQRTerminate(c, r)
 	checkQRBasicPatterns(c, r)
 	checkQRFinalBuild(c, r)
+	checkVersionDecodeFold(c, r) // the version words are recognised for every version 7..40 (also C05)
+	checkQRMaskHint(c, r)
 	// Reed-Solomon parity of the QR field: Encode folded on complete small domains (same obligations as under C04)
 	checkRSEncodeQR(c, r)
 	checkQRVersionPlacement(c, r)
@@ -2382,4 +2385,156 @@ func checkQRFinalBuild(c *Ctx, r *Report) {
 		}
 	}
 	r.Check(bad == "", "M-QRFINAL", key, c.pos(f.Pos()), bad)
+}
+
+// M-MASKHINT: the requested mask pattern is the one used
+func checkQRMaskHint(c *Ctx, r *Report) {
+	r.Rule("M-MASKHINT", "Encoder_encode, from the statement that introduces the mask pattern to the final build, folded with the penalty choice replaced by a recorder: a QR_MASK_PATTERN hint of 0..7 - as int or as decimal string - is the pattern handed to SetMaskPattern and to MatrixUtil_buildMatrix (0 included) and chooseMaskPattern is not consulted; without the hint, or with a value that is no mask pattern (-1, 8, \"x\", \"9\"), the pattern chooseMaskPattern answers is used", 1)
+	fd, p := c.funcDeclOf("qrcode/encoder", "Encoder_encode")
+	key := "qrcode/encoder.Encoder_encode/mask-hint"
+	if fd == nil {
+		r.AnchorLost("M-MASKHINT", key, "function not found")
+		return
+	}
+	r.Analysed(key)
+	builds := findCalls(p, fd.Body, func(o types.Object) bool { return isFuncNamed(o, "qrcode/encoder", "MatrixUtil_buildMatrix") })
+	hk, okK := constValIn(c, "", "EncodeHintType_QR_MASK_PATTERN")
+	if len(builds) == 0 || len(builds[len(builds)-1].Args) != 5 || !okK {
+		r.Undecided("M-MASKHINT", key, c.pos(fd.Pos()), "final MatrixUtil_buildMatrix call / hint key not found")
+		return
+	}
+	build := builds[len(builds)-1]
+	maskObj := identObj(p, build.Args[3])
+	// the slice of top-level statements from the definition of the mask variable to the end
+	from := -1
+	for i, st := range fd.Body.List {
+		if as, ok := st.(*ast.AssignStmt); ok && as.Tok == token.DEFINE && len(as.Lhs) == 1 && maskObj != nil && identObj(p, as.Lhs[0]) == maskObj {
+			from = i
+		}
+	}
+	if from < 0 {
+		r.Undecided("M-MASKHINT", key, c.pos(fd.Pos()), "the mask variable handed to the final build is not introduced by a top-level statement")
+		return
+	}
+	stmts := fd.Body.List[from:]
+	hintsObj := paramObjs(p, fd)[2]
+	// variables the slice uses but does not define: opaque values
+	defined := map[types.Object]bool{}
+	for _, st := range stmts {
+		ast.Inspect(st, func(n ast.Node) bool {
+			if id, ok := n.(*ast.Ident); ok {
+				if o := p.TypesInfo.Defs[id]; o != nil {
+					defined[o] = true
+				}
+			}
+			return true
+		})
+	}
+	type tc struct {
+		hint     *Val
+		want     int64
+		wantAuto bool
+		desc     string
+	}
+	const auto = 5
+	cases := []tc{{nil, auto, true, "no hint"}, {vint(-1), auto, true, "hint -1"}, {vint(8), auto, true, "hint 8"}, {vstr("x"), auto, true, `hint "x"`}, {vstr("9"), auto, true, `hint "9"`}}
+	for m := int64(0); m < 8; m++ {
+		cases = append(cases, tc{vint(m), m, false, fmt.Sprintf("hint %d", m)}, tc{vstr(fmt.Sprint(m)), m, false, fmt.Sprintf("hint %q", fmt.Sprint(m))})
+	}
+	bad := ""
+	for _, cs := range cases {
+		env := map[types.Object]*Val{}
+		for _, st := range stmts {
+			ast.Inspect(st, func(n ast.Node) bool {
+				if id, ok := n.(*ast.Ident); ok {
+					if v, isVar := p.TypesInfo.Uses[id].(*types.Var); isVar && !defined[v] && v.Pkg() != nil && v.Parent() != v.Pkg().Scope() && !v.IsField() {
+						if _, has := env[v]; !has {
+							env[v] = &Val{K: VStruct, Ptr: true, Local: true, Fields: map[string]*Val{}}
+						}
+					}
+				}
+				return true
+			})
+		}
+		env[hintsObj] = &Val{K: VNil}
+		if cs.hint != nil {
+			env[hintsObj] = &Val{K: VStruct, Fields: map[string]*Val{fmt.Sprint(hk): cs.hint}}
+		}
+		var setMask, builtMask []int64
+		autoCalls := 0
+		h := &rpf{unroll: 100}
+		h.callHook = func(rr *rpf, call *ast.CallExpr, callee types.Object) (*Val, bool) {
+			switch {
+			case isMethodNamed(callee, "qrcode/encoder", "QRCode", "SetMaskPattern"):
+				if v := rr.expr(call.Args[0]); v.K == VInt {
+					setMask = append(setMask, v.I)
+				} else {
+					rpfFail("SetMaskPattern with a non-constant pattern")
+				}
+				return &Val{K: VNil}, true
+			case isFuncNamed(callee, "qrcode/encoder", "MatrixUtil_buildMatrix"):
+				if v := rr.expr(call.Args[3]); v.K == VInt {
+					builtMask = append(builtMask, v.I)
+				} else {
+					rpfFail("MatrixUtil_buildMatrix with a non-constant pattern")
+				}
+				return &Val{K: VNil}, true
+			case isMethodNamed(callee, "qrcode/encoder", "QRCode", "SetMatrix"):
+				return &Val{K: VNil}, true
+			}
+			return errCtorHook(rr, call, callee)
+		}
+		h.multiHook = func(call *ast.CallExpr, callee types.Object) ([]*Val, bool) {
+			fn, ok := callee.(*types.Func)
+			if !ok {
+				return nil, false
+			}
+			switch {
+			case isFuncNamed(callee, "qrcode/encoder", "chooseMaskPattern"):
+				autoCalls++
+				return []*Val{vint(auto), {K: VNil}}, true
+			case fn.Pkg() != nil && fn.Pkg().Path() == "strconv" && fn.Name() == "Atoi":
+				s := rpfCurrent.expr(call.Args[0])
+				if s.K == VStr {
+					if n, err := strconv.Atoi(s.S); err == nil {
+						return []*Val{vint(int64(n)), {K: VNil}}, true
+					}
+					return []*Val{vint(0), vstr("error")}, true
+				}
+			}
+			return nil, false
+		}
+		rr := &rpf{c: c, p: p, env: env, callHook: h.callHook, multiHook: h.multiHook, unroll: 100, curFn: fd}
+		var err error
+		func() {
+			defer func() {
+				if x := recover(); x != nil {
+					if re, ok := x.(*rpfErr); ok {
+						err = re
+						return
+					}
+					panic(x)
+				}
+			}()
+			rr.block(stmts)
+		}()
+		if err != nil {
+			bad = "?" + cs.desc + ": " + err.Error()
+			break
+		}
+		switch {
+		case len(setMask) != 1 || len(builtMask) != 1:
+			bad = fmt.Sprintf("%s: SetMaskPattern is reached %d times and the final build %d times", cs.desc, len(setMask), len(builtMask))
+		case cs.wantAuto && autoCalls != 1:
+			bad = fmt.Sprintf("%s: the mask is not chosen by penalty (chooseMaskPattern called %d times; pattern %d used)", cs.desc, autoCalls, builtMask[0])
+		case !cs.wantAuto && autoCalls != 0:
+			bad = fmt.Sprintf("%s: the requested pattern is overridden by the penalty choice", cs.desc)
+		case setMask[0] != cs.want || builtMask[0] != cs.want:
+			bad = fmt.Sprintf("%s: pattern %d is recorded and pattern %d is built; expected %d", cs.desc, setMask[0], builtMask[0], cs.want)
+		}
+		if bad != "" {
+			break
+		}
+	}
+	reportFold(r, c, "M-MASKHINT", key, fd.Body.List[from].Pos(), bad)
 }
